@@ -18,7 +18,8 @@ Qed.
 
 (* ---------- how the history functions and the runs extend by one label ---------- *)
 Lemma last_handle_from_snoc h ls l :
-  last_handle_from h (ls ++ [l]) = match l with U_handle h' => h' | _ => last_handle_from h ls end.
+  last_handle_from h (ls ++ [l]) =
+  match l with U_handle h' => h' | B_inbound_handle _ _ h' => h' | _ => last_handle_from h ls end.
 Proof.
   revert h; induction ls as [|x r IH]; intros h; cbn [app last_handle_from].
   - destruct l; reflexivity.
@@ -34,7 +35,8 @@ Proof.
 Qed.
 
 Lemma count_inbound_snoc ls l :
-  count_inbound (ls ++ [l]) = (count_inbound ls + match l with B_inbound _ _ => 1 | _ => 0 end)%nat.
+  count_inbound (ls ++ [l]) =
+  (count_inbound ls + match l with B_inbound _ _ => 1 | B_inbound_handle _ _ _ => 1 | _ => 0 end)%nat.
 Proof.
   induction ls as [|x r IH]; cbn [app count_inbound].
   - destruct l; reflexivity.
@@ -43,7 +45,11 @@ Qed.
 
 Lemma spec_from_snoc h ls l :
   spec_from h (ls ++ [l]) =
-  spec_from h ls ++ match l with B_inbound k m => [Deliver k m (last_handle_from h ls)] | _ => [] end.
+  spec_from h ls ++ match l with
+                    | B_inbound k m => [Deliver k m (last_handle_from h ls)]
+                    | B_inbound_handle k m _ => [Deliver k m (last_handle_from h ls)]
+                    | _ => []
+                    end.
 Proof.
   revert h; induction ls as [|x r IH]; intros h; cbn [app spec_from last_handle_from].
   - destruct l; reflexivity.
@@ -58,6 +64,10 @@ Lemma spec_current_from_snoc h c ls l :
                       | Some k' => if Nat.eqb k k' then Some (Deliver k m (last_handle_from h ls)) else None
                       | None => None
                       end]
+  | B_inbound_handle k m _ => [match current_from c ls with
+                               | Some k' => if Nat.eqb k k' then Some (Deliver k m (last_handle_from h ls)) else None
+                               | None => None
+                               end]
   | _ => []
   end.
 Proof.
@@ -72,6 +82,7 @@ Lemma run_from_app v s evs a b :
   match run_from v s evs a with
   | Next s' evs' => run_from v s' evs' b
   | Disabled => Disabled
+  | Deadlocked => Deadlocked
   | Panicked => Panicked
   end.
 Proof.
@@ -86,13 +97,15 @@ Lemma run_from_snoc v s evs ls l :
       match step_gen v s' l with
       | Next s'' e => Next s'' (evs' ++ e)
       | Disabled => Disabled
+      | Deadlocked => Deadlocked
       | Panicked => Panicked
       end
   | Disabled => Disabled
+  | Deadlocked => Deadlocked
   | Panicked => Panicked
   end.
 Proof.
-  rewrite run_from_app. destruct (run_from v s evs ls) as [s0 evs0| |]; try reflexivity.
+  rewrite run_from_app. destruct (run_from v s evs ls) as [s0 evs0| | |]; try reflexivity.
 Qed.
 
 Lemma run_from_events_extend v s evs ls s' evs' :
@@ -100,7 +113,7 @@ Lemma run_from_events_extend v s evs ls s' evs' :
 Proof.
   revert s evs; induction ls as [|x r IH]; intros s evs H; cbn [run_from] in H.
   - injection H as _ <-. exists []. rewrite app_nil_r. reflexivity.
-  - destruct (step_gen v s x) as [s1 e| |]; try discriminate.
+  - destruct (step_gen v s x) as [s1 e| | |]; try discriminate.
     apply IH in H as [t ->]. exists (e ++ t). rewrite app_assoc. reflexivity.
 Qed.
 
@@ -109,6 +122,7 @@ Lemma run_loop_from_app s evs a b :
   match run_loop_from s evs a with
   | Next s' evs' => run_loop_from s' evs' b
   | Disabled => Disabled
+  | Deadlocked => Deadlocked
   | Panicked => Panicked
   end.
 Proof.
@@ -127,12 +141,25 @@ Proof.
   intros H; injection H as <- <-. exists c. repeat split; assumption.
 Qed.
 
+Lemma inbound_handle_inv s k m h s' e :
+  step s (B_inbound_handle k m h) = Next s' e ->
+  exists c hh, nth_error (clients s) k = Some c /\ reader_runs (c_phase c) = true /\
+               c_handler c = Some hh /\ s' = do_handle faithful s h /\ e = [Deliver k m (Some hh)].
+Proof.
+  unfold step, step_gen. destruct (nth_error (clients s) k) as [c|]; [|discriminate].
+  destruct (reader_runs (c_phase c)) eqn:E; [|discriminate].
+  destruct (c_handler c) as [hh|] eqn:Eh; [|discriminate]. cbn.
+  intros H; injection H as <- <-. exists c, hh. repeat split; assumption.
+Qed.
+
 (* what one step does to RetryClient.handler and RetryClient.cli *)
 Lemma step_rc s l s' e :
   step s l = Next s' e ->
-  rc_handler s' = match l with U_handle h => h | _ => rc_handler s end.
+  rc_handler s' = match l with U_handle h => h | B_inbound_handle _ _ h => h | _ => rc_handler s end.
 Proof.
-  unfold step, step_gen; intros H; destruct l; cbn in H;
+  intros H; destruct l;
+    try (apply inbound_handle_inv in H as (c & hh & _ & _ & _ & -> & _); reflexivity);
+    unfold step, step_gen in H; cbn in H;
     try (apply on_client_inv in H as (c & _ & _ & -> & _); reflexivity).
   - injection H as <- _. reflexivity.
   - injection H as <- _. reflexivity.
@@ -146,7 +173,9 @@ Lemma step_cur s l s' e :
   step s l = Next s' e ->
   cur s' = match l with R_set_client k => Some k | _ => cur s end.
 Proof.
-  unfold step, step_gen; intros H; destruct l; cbn in H;
+  intros H; destruct l;
+    try (apply inbound_handle_inv in H as (c & hh & _ & _ & _ & -> & _); reflexivity);
+    unfold step, step_gen in H; cbn in H;
     try (apply on_client_inv in H as (c & _ & _ & -> & _); reflexivity).
   - injection H as <- _. reflexivity.
   - injection H as <- _. reflexivity.
@@ -162,10 +191,15 @@ Lemma step_events s l s' e :
   match l with
   | B_inbound k m => exists c, nth_error (clients s) k = Some c /\ reader_runs (c_phase c) = true /\
                                e = [Deliver k m (c_handler c)]
+  | B_inbound_handle k m _ => exists c, nth_error (clients s) k = Some c /\ reader_runs (c_phase c) = true /\
+                                        c_handler c <> None /\ e = [Deliver k m (c_handler c)]
   | _ => e = []
   end.
 Proof.
-  unfold step, step_gen; intros H; destruct l; cbn in H;
+  intros H; destruct l;
+    try (apply inbound_handle_inv in H as (c & hh & Hn & He & Hh & _ & ->); exists c; rewrite Hh;
+         repeat split; try assumption; discriminate);
+    unfold step, step_gen in H; cbn in H;
     try (apply on_client_inv in H as (c & Hn & He & _ & ->); first [reflexivity | exists c; auto]).
   - injection H as _ <-. reflexivity.
   - injection H as _ <-. reflexivity.
@@ -206,14 +240,22 @@ Proof.
   - rewrite nth_upd_other in Hj by exact Hne. apply (I j d Hc Hj Hp).
 Qed.
 
+(* after Handle — from any goroutine, in any state — the current client holds the stored handler *)
+Lemma do_handle_inv s h : inv (do_handle faithful s h).
+Proof.
+  intros j d Hc Hj Hp. cbn in Hc, Hj |- *.
+  rewrite Hc in Hj. rewrite nth_upd_same in Hj.
+  destruct (nth_error (clients s) j) as [c|]; [|discriminate]. cbn in Hj. injection Hj as <-.
+  reflexivity.
+Qed.
+
 Lemma step_inv s l s' e : inv s -> step s l = Next s' e -> inv s'.
 Proof.
-  intros I H. unfold step, step_gen in H. destruct l; cbn in H.
+  intros I H. destruct l;
+    try (apply inbound_handle_inv in H as (c & hh & _ & _ & _ & -> & _); apply do_handle_inv);
+    unfold step, step_gen in H; cbn in H.
   - (* U_handle *)
-    injection H as <- _. intros j d Hc Hj Hp. cbn in Hc, Hj |- *.
-    rewrite Hc in Hj. rewrite nth_upd_same in Hj.
-    destruct (nth_error (clients s) j) as [c|]; [|discriminate]. cbn in Hj. injection Hj as <-.
-    reflexivity.
+    injection H as <- _. apply do_handle_inv.
   - (* R_dial *)
     injection H as <- _. intros j d Hc Hj Hp. cbn in Hc, Hj |- *.
     destruct (Nat.lt_ge_cases j (length (clients s))) as [Hlt|Hge].
@@ -249,18 +291,19 @@ Proof.
   induction ls as [|l ls IH] using rev_ind; intros s evs H.
   - injection H as <- <-. repeat split. exact inv_init.
   - unfold run, run_gen in H. rewrite run_from_snoc in H.
-    destruct (run_from faithful init [] ls) as [s1 evs1| |] eqn:R; try discriminate.
+    destruct (run_from faithful init [] ls) as [s1 evs1| | |] eqn:R; try discriminate.
     destruct (IH s1 evs1 R) as (I & Hrc & Hcur & Hlen).
-    destruct (step_gen faithful s1 l) as [s2 e| |] eqn:S; try discriminate.
+    destruct (step_gen faithful s1 l) as [s2 e| | |] eqn:S; try discriminate.
     injection H as <- <-. fold (step s1 l) in S.
     unfold last_handle, current_of. rewrite last_handle_from_snoc, current_from_snoc, count_inbound_snoc.
     repeat split.
     + eapply step_inv; eassumption.
-    + rewrite (step_rc _ _ _ _ S). destruct l; try exact Hrc. reflexivity.
+    + rewrite (step_rc _ _ _ _ S). destruct l; try exact Hrc; reflexivity.
     + rewrite (step_cur _ _ _ _ S). destruct l; try exact Hcur. reflexivity.
     + rewrite app_length, Hlen. apply step_events in S.
       destruct l; try (rewrite S; reflexivity).
-      destruct S as (c & _ & _ & ->). reflexivity.
+      * destruct S as (c & _ & _ & ->). reflexivity.
+      * destruct S as (c & _ & _ & _ & ->). reflexivity.
 Qed.
 
 Lemma run_prefix pre post s evs :
@@ -268,7 +311,7 @@ Lemma run_prefix pre post s evs :
   exists s1 evs1, run pre = Next s1 evs1 /\ run_from faithful s1 evs1 post = Next s evs.
 Proof.
   unfold run, run_gen. rewrite run_from_app.
-  destruct (run_from faithful init [] pre) as [s1 evs1| |]; try discriminate.
+  destruct (run_from faithful init [] pre) as [s1 evs1| | |]; try discriminate.
   intros H. exists s1, evs1. split; [reflexivity|exact H].
 Qed.
 
@@ -282,7 +325,7 @@ Lemma handler_installed ls s evs :
 Proof.
   intros H. destruct (run_prefix _ _ _ _ H) as (s1 & evs1 & R & S).
   destruct (run_state _ _ _ R) as (_ & Hrc & _ & _).
-  cbn [run_from] in S. destruct (step_gen faithful s1 R_connect_begin) as [s2 e| |] eqn:E; try discriminate.
+  cbn [run_from] in S. destruct (step_gen faithful s1 R_connect_begin) as [s2 e| | |] eqn:E; try discriminate.
   injection S as <- _. unfold step_gen in E. cbn in E.
   destruct (cur s1) as [k|] eqn:Hc; [|discriminate].
   apply on_client_inv in E as (c & Hn & _ & -> & _).
@@ -324,13 +367,52 @@ Lemma delivery pre k m post s evs :
 Proof.
   intros H Hk. destruct (run_prefix _ _ _ _ H) as (s1 & evs1 & R & S).
   destruct (run_state _ _ _ R) as (I & Hrc & Hcur & Hlen).
-  cbn [run_from] in S. destruct (step_gen faithful s1 (B_inbound k m)) as [s2 e| |] eqn:E; try discriminate.
+  cbn [run_from] in S. destruct (step_gen faithful s1 (B_inbound k m)) as [s2 e| | |] eqn:E; try discriminate.
   fold (step s1 (B_inbound k m)) in E. apply step_events in E as (c & Hn & Hr & ->).
   apply run_from_events_extend in S as [t ->].
   rewrite <- app_assoc, nth_error_app2 by lia. rewrite Hlen, Nat.sub_diag. cbn.
   rewrite <- Hrc. f_equal. f_equal. apply (I k c); [rewrite Hcur; exact Hk|exact Hn|].
   destruct (c_phase c); try discriminate; reflexivity.
 Qed.
+
+(* ... and so is a message whose handler, while running, replaces the handler through the
+   RetryClient: the message itself goes to the handler registered before, which is non-nil *)
+Lemma delivery_reentrant pre k m h' post s evs :
+  run (pre ++ B_inbound_handle k m h' :: post) = Next s evs ->
+  current_of pre = Some k ->
+  last_handle pre <> None /\
+  nth_error evs (count_inbound pre) = Some (Deliver k m (last_handle pre)).
+Proof.
+  intros H Hk. destruct (run_prefix _ _ _ _ H) as (s1 & evs1 & R & S).
+  destruct (run_state _ _ _ R) as (I & Hrc & Hcur & Hlen).
+  cbn [run_from] in S. destruct (step_gen faithful s1 (B_inbound_handle k m h')) as [s2 e| | |] eqn:E; try discriminate.
+  fold (step s1 (B_inbound_handle k m h')) in E. apply step_events in E as (c & Hn & Hr & Hnn & ->).
+  apply run_from_events_extend in S as [t ->].
+  assert (Hc : c_handler c = last_handle pre).
+  { rewrite <- Hrc. apply (I k c); [rewrite Hcur; exact Hk|exact Hn|].
+    destruct (c_phase c); try discriminate; reflexivity. }
+  split; [rewrite <- Hc; exact Hnn|].
+  rewrite <- app_assoc, nth_error_app2 by lia. rewrite Hlen, Nat.sub_diag. cbn. rewrite Hc. reflexivity.
+Qed.
+
+(* a Handle call from inside a handler callback never blocks: no step of /repo's model deadlocks *)
+Lemma step_no_deadlock s l : step s l <> Deadlocked.
+Proof.
+  unfold step, step_gen, on_client. destruct l; cbn; try discriminate;
+    repeat match goal with
+           | |- context [match ?x with _ => _ end] => destruct x; cbn; try discriminate
+           end.
+Qed.
+
+Lemma run_from_no_deadlock s evs ls : run_from faithful s evs ls <> Deadlocked.
+Proof.
+  revert s evs; induction ls as [|l r IH]; intros s evs; cbn [run_from]; [discriminate|].
+  destruct (step_gen faithful s l) as [s1 e| | |] eqn:E; try discriminate; [apply IH|].
+  exfalso. exact (step_no_deadlock s l E).
+Qed.
+
+Lemma no_deadlock ls : run ls <> Deadlocked.
+Proof. apply run_from_no_deadlock. Qed.
 
 (* the same as an executable predicate over the whole log (what the harness evaluates on the
    implementation's observations) *)
@@ -354,19 +436,26 @@ Proof.
   induction ls as [|l ls IH] using rev_ind; intros s evs H.
   - injection H as _ <-. reflexivity.
   - unfold run, run_gen in H. rewrite run_from_snoc in H.
-    destruct (run_from faithful init [] ls) as [s1 evs1| |] eqn:R; try discriminate.
+    destruct (run_from faithful init [] ls) as [s1 evs1| | |] eqn:R; try discriminate.
     destruct (run_state ls s1 evs1 R) as (I & Hrc & Hcur & _).
     specialize (IH s1 evs1 R).
-    destruct (step_gen faithful s1 l) as [s2 e| |] eqn:S; try discriminate.
+    destruct (step_gen faithful s1 l) as [s2 e| | |] eqn:S; try discriminate.
     injection H as _ <-. fold (step s1 l) in S. apply step_events in S.
     unfold spec_current. rewrite spec_current_from_snoc. apply meets_app; [exact IH|].
+    assert (Hin : forall k m c, nth_error (clients s1) k = Some c -> reader_runs (c_phase c) = true ->
+              meets [match current_of ls with
+                     | Some k' => if Nat.eqb k k' then Some (Deliver k m (last_handle ls)) else None
+                     | None => None
+                     end] [Deliver k m (c_handler c)] = true).
+    { intros k m c Hn Hr.
+      destruct (current_of ls) as [k'|] eqn:Ek; [|reflexivity].
+      destruct (Nat.eqb k k') eqn:Ekk; [|reflexivity].
+      apply Nat.eqb_eq in Ekk. subst k'. cbn [meets]. rewrite andb_true_r.
+      rewrite <- Hrc. rewrite (I k c); [apply event_eqb_refl|rewrite Hcur; reflexivity|exact Hn|].
+      destruct (c_phase c); try discriminate; reflexivity. }
     destruct l; try (rewrite S; reflexivity).
-    destruct S as (c & Hn & Hr & ->). fold (current_of ls). fold (last_handle ls).
-    destruct (current_of ls) as [k'|] eqn:Ek; [|reflexivity].
-    destruct (Nat.eqb k k') eqn:Ekk; [|reflexivity].
-    apply Nat.eqb_eq in Ekk. subst k'. cbn [meets]. rewrite andb_true_r.
-    rewrite <- Hrc. rewrite (I k c); [apply event_eqb_refl|rewrite Hcur; reflexivity|exact Hn|].
-    destruct (c_phase c); try discriminate; reflexivity.
+    + destruct S as (c & Hn & Hr & ->). apply Hin; assumption.
+    + destruct S as (c & Hn & Hr & _ & ->). apply Hin; assumption.
 Qed.
 
 (* ---------- the reconnect loop: every connection, every message ---------- *)
@@ -377,7 +466,7 @@ Lemma run_loop_from_run s evs ls s' evs' :
   run_loop_from s evs ls = Next s' evs' -> run_from faithful s evs ls = Next s' evs'.
 Proof.
   revert s evs; induction ls as [|l r IH]; intros s evs H; cbn [run_loop_from run_from] in *; [exact H|].
-  destruct (step_loop s l) as [s1 e| |] eqn:S; try discriminate.
+  destruct (step_loop s l) as [s1 e| | |] eqn:S; try discriminate.
   apply step_loop_step in S. unfold step in S. rewrite S. apply IH. exact H.
 Qed.
 
@@ -405,15 +494,22 @@ Proof.
   - rewrite nth_upd_other in Hj by exact Hne. apply (L j d Hj Hl).
 Qed.
 
+Lemma do_handle_live_is_cur s h : live_is_cur s -> live_is_cur (do_handle faithful s h).
+Proof.
+  intros L j d Hj Hl. cbn in Hj |- *.
+  destruct (cur s) as [k|] eqn:Hc.
+  - destruct (Nat.eq_dec j k) as [->|Hne]; [reflexivity|].
+    rewrite nth_upd_other in Hj by exact Hne. rewrite <- Hc. apply (L j d Hj Hl).
+  - rewrite <- Hc. apply (L j d Hj Hl).
+Qed.
+
 Lemma step_loop_live_is_cur s l s' e : live_is_cur s -> step_loop s l = Next s' e -> live_is_cur s'.
 Proof.
   intros L H. unfold step_loop in H.
-  destruct l; unfold step, step_gen in H; cbn in H.
-  - injection H as <- _. intros j d Hj Hl. cbn in Hj |- *.
-    destruct (cur s) as [k|] eqn:Hc.
-    + destruct (Nat.eq_dec j k) as [->|Hne]; [reflexivity|].
-      rewrite nth_upd_other in Hj by exact Hne. rewrite <- Hc. apply (L j d Hj Hl).
-    + rewrite <- Hc. apply (L j d Hj Hl).
+  destruct l;
+    try (apply inbound_handle_inv in H as (c & hh & _ & _ & _ & -> & _); apply do_handle_live_is_cur; exact L);
+    unfold step, step_gen in H; cbn in H.
+  - injection H as <- _. apply do_handle_live_is_cur; exact L.
   - injection H as <- _. intros j d Hj Hl. cbn in Hj |- *.
     destruct (Nat.lt_ge_cases j (length (clients s))) as [Hlt|Hge].
     + rewrite nth_error_app1 in Hj by exact Hlt. apply (L j d Hj Hl).
@@ -443,14 +539,16 @@ Lemma run_loop_snoc ls l :
       match step_loop s' l with
       | Next s'' e => Next s'' (evs' ++ e)
       | Disabled => Disabled
+      | Deadlocked => Deadlocked
       | Panicked => Panicked
       end
   | Disabled => Disabled
+  | Deadlocked => Deadlocked
   | Panicked => Panicked
   end.
 Proof.
   unfold run_loop. rewrite run_loop_from_app.
-  destruct (run_loop_from init [] ls) as [s0 evs0| |]; reflexivity.
+  destruct (run_loop_from init [] ls) as [s0 evs0| | |]; reflexivity.
 Qed.
 
 Lemma run_loop_run ls s evs : run_loop ls = Next s evs -> run ls = Next s evs.
@@ -464,17 +562,21 @@ Proof.
   induction ls as [|l ls IH] using rev_ind; intros s evs H.
   - injection H as <- <-. split; [|reflexivity]. intros k c Hn. destruct k; discriminate.
   - rewrite run_loop_snoc in H.
-    destruct (run_loop ls) as [s1 evs1| |] eqn:R; try discriminate.
+    destruct (run_loop ls) as [s1 evs1| | |] eqn:R; try discriminate.
     destruct (IH s1 evs1 eq_refl) as (L & ->).
     destruct (run_state ls s1 _ (run_loop_run _ _ _ R)) as (I & Hrc & Hcur & _).
-    destruct (step_loop s1 l) as [s2 e| |] eqn:S; try discriminate.
+    destruct (step_loop s1 l) as [s2 e| | |] eqn:S; try discriminate.
     injection H as <- <-. split; [eapply step_loop_live_is_cur; eassumption|].
     apply step_loop_step, step_events in S.
     unfold spec_events. rewrite spec_from_snoc. f_equal.
+    assert (Hin : forall k c, nth_error (clients s1) k = Some c -> reader_runs (c_phase c) = true ->
+                              c_handler c = last_handle_from None ls).
+    { intros k c Hn Hr. fold (last_handle ls). rewrite <- Hrc.
+      assert (Hl : live (c_phase c) = true) by (destruct (c_phase c); try discriminate; reflexivity).
+      apply (I k c (L k c Hn Hl) Hn Hl). }
     destruct l; try exact S.
-    destruct S as (c & Hn & Hr & ->). fold (last_handle ls). rewrite <- Hrc.
-    assert (Hl : live (c_phase c) = true) by (destruct (c_phase c); try discriminate; reflexivity).
-    rewrite (I k c (L k c Hn Hl) Hn Hl). reflexivity.
+    + destruct S as (c & Hn & Hr & ->). rewrite (Hin k c Hn Hr). reflexivity.
+    + destruct S as (c & Hn & Hr & _ & ->). rewrite (Hin k c Hn Hr). reflexivity.
 Qed.
 
 Lemma spec_from_nth h pre k m post :
@@ -529,13 +631,16 @@ Definition ex_schedule : list label :=
     R_dial None; R_set_client 1; R_connect_begin; R_connect_start 1; R_connack 1; B_inbound 1 13;
     U_handle (Some 7); B_inbound 1 14; R_connect_return 1; R_end 1;
     R_dial (Some 99); R_set_client 2; R_connect_begin; R_connect_start 2; R_connack 2;
-    B_inbound 2 15; R_connect_return 2; U_handle (Some 6); B_inbound 2 16 ].
+    B_inbound 2 15; R_connect_return 2; U_handle (Some 6); B_inbound 2 16;
+    B_inbound_handle 2 17 (Some 8); B_inbound 2 18; R_end 2;
+    R_dial None; R_set_client 3; R_connect_begin; R_connect_start 3; R_connack 3; B_inbound 3 19 ].
 
 Example ex_schedule_runs :
   exists s, run_loop ex_schedule = Next s
     [ Deliver 0 10 (Some 5); Deliver 0 11 (Some 6); Deliver 0 12 (Some 6);
       Deliver 1 13 None; Deliver 1 14 (Some 7);
-      Deliver 2 15 (Some 7); Deliver 2 16 (Some 6) ].
+      Deliver 2 15 (Some 7); Deliver 2 16 (Some 6);
+      Deliver 2 17 (Some 6); Deliver 2 18 (Some 8); Deliver 3 19 (Some 8) ].
 Proof. eexists. vm_compute. reflexivity. Qed.
 
 Example ex_delivery_hyps :
@@ -576,7 +681,7 @@ Definition conn (k : nat) : list label :=
 
 (* Connect does not install the stored handler *)
 Lemma no_install_refuted :
-  exists ls, breaks {| i_store := StoreAlways; i_forward := true; i_install := InstallNever; i_setclient_clears := false |} ls.
+  exists ls, breaks {| i_store := StoreAlways; i_forward := true; i_install := InstallNever; i_setclient_clears := false; i_lock_through_callback := false |} ls.
 Proof.
   exists (U_handle (Some 1) :: conn 0 ++ [B_inbound 0 7]).
   split; [eexists; eexists; vm_compute; reflexivity|]. eexists. eexists. vm_compute. split; reflexivity.
@@ -584,7 +689,7 @@ Qed.
 
 (* Connect installs the handler only after BaseClient.Connect returned (seeded change C17-2) *)
 Lemma late_install_refuted :
-  exists ls, breaks {| i_store := StoreAlways; i_forward := true; i_install := InstallAfterReturn; i_setclient_clears := false |} ls.
+  exists ls, breaks {| i_store := StoreAlways; i_forward := true; i_install := InstallAfterReturn; i_setclient_clears := false; i_lock_through_callback := false |} ls.
 Proof.
   exists (U_handle (Some 1) :: conn 0 ++ [B_inbound 0 7; R_connect_return 0]).
   split; [eexists; eexists; vm_compute; reflexivity|]. eexists. eexists. vm_compute. split; reflexivity.
@@ -592,7 +697,7 @@ Qed.
 
 (* the handler is installed on the first connection only *)
 Lemma first_only_refuted :
-  exists ls, breaks {| i_store := StoreAlways; i_forward := true; i_install := InstallFirstOnly; i_setclient_clears := false |} ls.
+  exists ls, breaks {| i_store := StoreAlways; i_forward := true; i_install := InstallFirstOnly; i_setclient_clears := false; i_lock_through_callback := false |} ls.
 Proof.
   exists (U_handle (Some 1) :: conn 0 ++ [B_inbound 0 7; R_end 0] ++ conn 1 ++ [B_inbound 1 8]).
   split; [eexists; eexists; vm_compute; reflexivity|]. eexists. eexists. vm_compute. split; reflexivity.
@@ -600,7 +705,7 @@ Qed.
 
 (* Handle does not forward to the current client *)
 Lemma no_forward_refuted :
-  exists ls, breaks {| i_store := StoreAlways; i_forward := false; i_install := InstallAtBegin; i_setclient_clears := false |} ls.
+  exists ls, breaks {| i_store := StoreAlways; i_forward := false; i_install := InstallAtBegin; i_setclient_clears := false; i_lock_through_callback := false |} ls.
 Proof.
   exists (conn 0 ++ [U_handle (Some 1); B_inbound 0 7]).
   split; [eexists; eexists; vm_compute; reflexivity|]. eexists. eexists. vm_compute. split; reflexivity.
@@ -608,14 +713,14 @@ Qed.
 
 (* Handle forwards but does not store (seeded change C17-1: stores only while no client is set) *)
 Lemma store_if_no_client_refuted :
-  exists ls, breaks {| i_store := StoreIfNoClient; i_forward := true; i_install := InstallAtBegin; i_setclient_clears := false |} ls.
+  exists ls, breaks {| i_store := StoreIfNoClient; i_forward := true; i_install := InstallAtBegin; i_setclient_clears := false; i_lock_through_callback := false |} ls.
 Proof.
   exists (conn 0 ++ [U_handle (Some 1); B_inbound 0 7; R_end 0] ++ conn 1 ++ [B_inbound 1 8]).
   split; [eexists; eexists; vm_compute; reflexivity|]. eexists. eexists. vm_compute. split; reflexivity.
 Qed.
 
 Lemma no_store_refuted :
-  exists ls, breaks {| i_store := StoreNever; i_forward := true; i_install := InstallAtBegin; i_setclient_clears := false |} ls.
+  exists ls, breaks {| i_store := StoreNever; i_forward := true; i_install := InstallAtBegin; i_setclient_clears := false; i_lock_through_callback := false |} ls.
 Proof.
   exists (U_handle (Some 1) :: conn 0 ++ [B_inbound 0 7]).
   split; [eexists; eexists; vm_compute; reflexivity|]. eexists. eexists. vm_compute. split; reflexivity.
@@ -623,10 +728,21 @@ Qed.
 
 (* SetClient forgets the stored handler *)
 Lemma setclient_clears_refuted :
-  exists ls, breaks {| i_store := StoreAlways; i_forward := true; i_install := InstallAtBegin; i_setclient_clears := true |} ls.
+  exists ls, breaks {| i_store := StoreAlways; i_forward := true; i_install := InstallAtBegin; i_setclient_clears := true; i_lock_through_callback := false |} ls.
 Proof.
   exists (U_handle (Some 1) :: conn 0 ++ [B_inbound 0 7]).
   split; [eexists; eexists; vm_compute; reflexivity|]. eexists. eexists. vm_compute. split; reflexivity.
+Qed.
+
+(* the reader holds its client's lock while the handler runs (seeded change C17-6): a handler that
+   replaces the handler through the RetryClient never returns *)
+Lemma lock_through_callback_refuted :
+  exists ls, (exists s evs, run_loop ls = Next s evs) /\
+             run_gen {| i_store := StoreAlways; i_forward := true; i_install := InstallAtBegin;
+                        i_setclient_clears := false; i_lock_through_callback := true |} ls = Deadlocked.
+Proof.
+  exists (U_handle (Some 1) :: conn 0 ++ [B_inbound_handle 0 7 (Some 2); B_inbound 0 8]).
+  split; [eexists; eexists; vm_compute; reflexivity|]. vm_compute. reflexivity.
 Qed.
 
 (* ... while the faithful model passes on every one of these schedules (instance of delivery_meets) *)
